@@ -78,14 +78,17 @@ def main():
                     i += 1
                 idx = lambda o: next(j for j, x in enumerate(known) if x is o)   # noqa
                 return [[j, leaf_keys(b), None if b._next is None else idx(b._next)] for j, b in enumerate(known)]
-            if impl == "C" and src in ("iter", "iteritems") and it is not None:
+            if src in ("iter", "iteritems") and it is not None and (impl == "C" or kind in ("BTree", "TreeSet")):
                 st0 = observe()
                 chain = []
                 b = t._firstbucket if kind in ("BTree", "TreeSet") else t
                 while b is not None:
                     chain.append(b)
                     b = b._next
-                if not chain or not len(t):
+                if impl == "Py":
+                    # _TreeItems starts at the first bucket whatever it holds
+                    trace = {"py": True, "cur": None if not chain else next(j for j, x in enumerate(known) if x is chain[0]), "last": 0, "lastoff": 0, "steps": []}
+                elif not chain or not len(t):
                     trace = {"cur": None, "last": 0, "lastoff": 0, "steps": []}
                 else:
                     li = next(j for j, x in enumerate(known) if x is chain[-1])
@@ -132,6 +135,10 @@ def main():
                         except RuntimeError:
                             if trace is not None:
                                 trace["steps"].append([snap, "runtime", None])
+                            raise
+                        except IndexError:
+                            if trace is not None:
+                                trace["steps"].append([snap, "indexerror", None])
                             raise
                     elif st[0] == "index":
                         x = seq[st[1]]
